@@ -849,7 +849,10 @@ def inmem_allocs(F, cls):
     le.run(pre, ())
     for s in inmem:
         if isinstance(s, ast.Assign) and self_attr(s.targets[0]):
-            al = array_alloc(s.value)
+            v = s.value
+            if isinstance(v, ast.Name):       # `cms = np.zeros(...); self.cms = cms`
+                v = resolve_temps(ctor.node, v, allow_subscript=True, pure_only=False, in_loops=False, loose=True)
+            al = array_alloc(v)
             if al and al["kind"] == "zeros":
                 out[self_attr(s.targets[0])] = (al["dtype"], [le.ev(d) for d in al["dims"]])
     return out, ifn, shared, inmem
@@ -1545,14 +1548,17 @@ TABLE_ATTRS = {"cms", "n_added_records", "registers", "lhh", "lhh_count", "key_l
 TABLE_WRITERS = {"__init__", "attach_existing_shm"}
 
 
-def rule_state_owner(ctx, classes=SKETCH_CLASSES):
+def rule_state_owner(ctx, classes=SKETCH_CLASSES, methods=None):
     """The arrays holding a sketch's state are (re)bound only by the constructor and the attacher; every other method
-    changes them through its kernel.  Rebinding elsewhere aliases or replaces state behind the kernels' back."""
+    changes them through its kernel.  Rebinding elsewhere aliases or replaces state behind the kernels' back.
+    `methods` restricts the rule to the methods a property is about (None = every method and the module-level functions)."""
     F = facts_of(ctx)
     seen = set()
     for cls in F.classes(classes):
         for mname, meth in cls.methods.items():
             if meth.key in seen:
+                continue
+            if methods is not None and mname not in methods:
                 continue
             seen.add(meth.key)
             sites = []
@@ -1588,6 +1594,8 @@ def rule_state_owner(ctx, classes=SKETCH_CLASSES):
     for f in F.model.all_funcs():
         if f.cls is not None or f.is_kernel:
             continue
+        if methods is not None and f.name not in methods:
+            continue
         bad = []
         for n in walk_no_nested(f.node):
             if isinstance(n, ast.Assign):
@@ -1599,7 +1607,7 @@ def rule_state_owner(ctx, classes=SKETCH_CLASSES):
     # loaders (static methods) copy, never rebind
     for cls in F.classes(classes):
         ld = cls.methods.get("load")
-        if ld is None:
+        if ld is None or (methods is not None and "load" not in methods):
             continue
         bad = [n for n in walk_no_nested(ld.node) if isinstance(n, ast.Assign) and any(isinstance(t, ast.Attribute) and t.attr in TABLE_ATTRS for t in n.targets)]
         ctx.ob("state-owner", ld, bad[0] if bad else ld.node, "%s copies into the arrays" % ld.qualname,
@@ -1712,6 +1720,14 @@ def rule_reload_valid(ctx, classes=SKETCH_CLASSES):
                 bad = None
                 for c, r in raise_conds:
                     if pterm not in set(_cond_terms(c)):
+                        # the check may still depend on the parameter through a non-linear term (phi * width < 1.0): such a check
+                        # is evaluated in floating point for the stored default over an enumerated range of the other parameters
+                        if pterm in _deep_terms(w, c):
+                            wit = _enumerate_guard(w, c, pterm, V.lin, cparams)
+                            if wit is not None:
+                                bad = "the value of `%s` that save() stores (%s) is rejected by the constructor's own check `%s` when load() feeds it back, e.g. for %s" % (
+                                    P, show_lin(V.lin), unparse(r.path[-1][0].test, 70), wit)
+                                break
                         continue
                     c2 = _drop_atoms(_subst_cond(c, pterm, V.lin), True)
                     st = w.refine(e, [c2])
@@ -1722,6 +1738,102 @@ def rule_reload_valid(ctx, classes=SKETCH_CLASSES):
                 res.append((bad is None, "every stored value passes the constructor's validation" if bad is None else bad, fact_strs(e)))
             agg(ctx, "reload-valid", ctor, e0.node, "%s: %s" % (cls.name, src(ctor, e0.node, 70)),
                 "load(save(x)) can reconstruct x: the saved parameter value satisfies the constructor's validation", res)
+
+
+def _deep_terms(w, c):
+    """All terms a condition depends on, looking inside op / min / max terms."""
+    out = set()
+    todo = list(_cond_terms(c))
+    while todo:
+        t = todo.pop()
+        if t in out:
+            continue
+        out.add(t)
+        if isinstance(t, tuple) and t and t[0] == "op" and t in w.P.ops:
+            a, b = w.P.ops[t]
+            todo.extend(a.terms())
+            todo.extend(b.terms())
+        elif isinstance(t, tuple) and t and t[0] in ("min", "max") and t in w.P.minmax:
+            _, a, b = w.P.minmax[t]
+            todo.extend(a.terms())
+            todo.extend(b.terms())
+    return out
+
+
+def _eval_lin(w, lin, env):
+    """Floating-point value of a walker linear form under env (term -> number); raises KeyError if a term is not evaluable."""
+    v = float(lin.k) if isinstance(lin.k, float) else lin.k
+    for t, c in lin.c.items():
+        v = v + c * _eval_term(w, t, env)
+    return v
+
+
+def _eval_term(w, t, env):
+    if t in env:
+        return env[t]
+    if isinstance(t, tuple) and t and t[0] == "op" and t in w.P.ops:
+        a, b = (_eval_lin(w, x, env) for x in w.P.ops[t])
+        op = t[1]
+        if op == "Mult":
+            return a * b
+        if op == "Div":
+            return a / b
+        if op == "FloorDiv":
+            return a // b
+        if op == "Mod":
+            return a % b
+        if op == "Pow":
+            return a ** b
+        raise KeyError(t)
+    if isinstance(t, tuple) and t and t[0] in ("min", "max") and t in w.P.minmax:
+        kind, a, b = w.P.minmax[t]
+        va, vb = _eval_lin(w, a, env), _eval_lin(w, b, env)
+        return min(va, vb) if kind == "min" else max(va, vb)
+    raise KeyError(t)
+
+
+def _eval_cond(w, c, env):
+    k = c[0]
+    if k == "le":
+        return _eval_lin(w, c[1], env) <= 0
+    if k == "flt":
+        return _eval_lin(w, c[1], env) < 0
+    if k == "eq":
+        return _eval_lin(w, c[1], env) == 0
+    if k == "ne":
+        return _eval_lin(w, c[1], env) != 0
+    if k == "and":
+        return all(_eval_cond(w, x, env) for x in c[1])
+    if k == "or":
+        return any(_eval_cond(w, x, env) for x in c[1])
+    if k == "not":
+        return not _eval_cond(w, c[1], env)
+    if k == "atom":
+        return True           # type tests (isinstance(phi, float)) hold for the value load() feeds back
+    if k == "true":
+        return True
+    if k == "false":
+        return False
+    raise KeyError(c)
+
+
+def _enumerate_guard(w, c, pterm, vlin, cparams, limit=4096):
+    """Does the raising condition `c` hold when parameter `pterm` takes the stored default `vlin` (an expression of the other
+    parameters)?  The other integer parameters it mentions are enumerated over 1..limit (IEEE doubles, as the program computes);
+    returns a witness string or None."""
+    others = sorted({t for t in (_deep_terms(w, c) | set(vlin.terms())) if isinstance(t, tuple) and t and t[0] in ("param", "attr") and t != pterm}, key=repr)
+    if len(others) != 1:
+        return None
+    o = others[0]
+    for n in range(1, limit + 1):
+        env = {o: n}
+        try:
+            env[pterm] = _eval_lin(w, vlin, env)
+            if _eval_cond(w, c, env):
+                return "%s = %d" % (o[-1], n)
+        except (KeyError, ZeroDivisionError, OverflowError, TypeError):
+            return None
+    return None
 
 
 def _cond_terms(c):
